@@ -58,7 +58,7 @@ PROPS['C01'] = dict(
 
 PROPS['C02'] = dict(
     unit_modules=['contracts.c02_tokenizer'], driver_modules=['drivers.c02'], level='other',
-    level_text="Step contracts of the REAL tokenizer scan loop (one iteration sliced out of ExcelParser.getTokens, nested helpers and token classes real): for ALL (formula, offset, pending token, mode flags) an iteration raises no IndexError and strictly advances without passing the end (with a loop contract for the inner blank-skipping loop: invariant + variant); inside a string literal / quoted sheet name every character is kept, a doubled quote stands for one, the closing quote emits the literal unchanged / ends the name; the opening quote only switches the mode whatever follows it. By induction over the literal these give 'each string literal keeps its exact characters'. Everything else of the statement (one node per construct, argument counts, whitespace, scientific notation, function nesting) is BOUNDED: a systematic grammar enumeration and seeded random formulas compared with an independent recursive-descent reference parser. Claimed 'other'.",
+    level_text="Step contracts of the REAL tokenizer scan loop (one iteration sliced out of ExcelParser.getTokens, nested helpers and token classes real): for ALL (formula, offset, pending token, mode flags) an iteration raises no IndexError and strictly advances without passing the end (with a loop contract for the inner blank-skipping loop: invariant + variant); inside a string literal / quoted sheet name every character is kept, a doubled quote stands for one, the closing quote emits the literal unchanged / ends the name; the opening quote only switches the mode whatever follows it; outside every mode an operator character, a two-character comparator, '(' , ')' and ',' each flush the pending operand exactly once and become exactly ONE token of the right kind (function start carrying the name / sub-expression start / stop token of the innermost construct / argument separator or union operator / a placeholder for an omitted argument), and an ordinary character joins the pending token - with the scientific-notation test decided exactly (the regular expression is translated to a z3 regular expression, the translation self-tested against `re`). By induction over the literal these give 'each string literal keeps its exact characters' and 'one token per written construct'. Everything else of the statement (one node per construct, argument counts, whitespace, scientific notation, function nesting) is BOUNDED: a systematic grammar enumeration and seeded random formulas compared with an independent recursive-descent reference parser. Claimed 'other'.",
     level_note="Trusted: facts about well-formed input used as preconditions (formula does not end in ',', '%' follows a numeric literal); string theory of z3/cvc5 (per-path queries, 20 s); float(token) as uninterpreted; loop slicing anchored by the guard text; pyvc interpreter (cross-check + canary).",
     trusted_base=['intrinsic axioms of the uninterpreted builtins (pyvc/models.py UF_AXIOMS), natively tested on every run', 'loop slicing of tokenizer.getTokens anchored by guard text', 'reference parser in drivers/c02.py (bounded layer oracle)'],
     explanation='C02: index safety/progress and literal-preservation step contracts proved on the real scan loop; tree equality bounded against a reference parser.', assumptions=COMMON_ASSUMPTIONS,
